@@ -288,3 +288,104 @@ theorem canonFixed64 {k : Kind} {n : Nat} (h : CanonNum k n) : n % 256 ^ 8 = n :
   omega
 
 end Pb
+namespace Spec
+
+/-! ### consumed lengths -/
+
+theorem decVarintAux_len : ∀ (b : List Byte) (i v n : Nat), decVarintAux i b = .ok (v, n) → 1 ≤ n ∧ n ≤ b.length
+  | [], i, v, n, h => by simp [decVarintAux] at h
+  | x :: r, i, v, n, h => by
+    unfold decVarintAux at h
+    split at h
+    · split at h
+      · simp only [Except.ok.injEq, Prod.mk.injEq] at h; simp; omega
+      · simp at h
+    · split at h
+      · simp only [Except.ok.injEq, Prod.mk.injEq] at h; simp; omega
+      · split at h
+        · rename_i v' n' heq
+          have := decVarintAux_len r (i + 1) v' n' heq
+          simp only [Except.ok.injEq, Prod.mk.injEq] at h; simp; omega
+        · simp at h
+
+theorem decVarint_len {b : List Byte} {v n : Nat} (h : decVarint b = .ok (v, n)) : 1 ≤ n ∧ n ≤ b.length :=
+  decVarintAux_len b 0 v n h
+
+theorem decTag_len {b : List Byte} {num typ n : Nat} (h : decTag b = .ok (num, typ, n)) :
+    1 ≤ n ∧ n ≤ b.length := by
+  unfold decTag at h
+  split at h
+  · simp at h
+  · rename_i v n' heq
+    simp only at h
+    split at h
+    · simp at h
+    · split at h
+      · simp at h
+      · simp only [Except.ok.injEq, Prod.mk.injEq] at h
+        have := decVarint_len heq; omega
+
+/-! ### `ConsumeFieldValue` on the non-group wire types -/
+
+theorem consumeFieldValue_varint (num : Nat) (b : List Byte) (depth : Int) :
+    consumeFieldValue num 0 b depth = (decVarint b).map (·.2) := by
+  simp only [consumeFieldValue, fuelFor, fieldValueLen]
+
+theorem consumeFieldValue_fixed32 (num : Nat) (b : List Byte) (depth : Int) :
+    consumeFieldValue num 5 b depth = (decFixed 4 b).map (·.2) := by
+  simp only [consumeFieldValue, fuelFor, fieldValueLen]
+
+theorem consumeFieldValue_fixed64 (num : Nat) (b : List Byte) (depth : Int) :
+    consumeFieldValue num 1 b depth = (decFixed 8 b).map (·.2) := by
+  simp only [consumeFieldValue, fuelFor, fieldValueLen]
+
+theorem consumeFieldValue_bytes (num : Nat) (b : List Byte) (depth : Int) :
+    consumeFieldValue num 2 b depth = (decBytes b).map (·.2) := by
+  simp only [consumeFieldValue, fuelFor, fieldValueLen]
+
+/-! ### a larger group-nesting budget accepts at least as much (same bytes, same result) -/
+
+theorem fieldValueLen_depth_mono : ∀ (fuel : Nat),
+    (∀ num typ b (d d' : Int) n, d ≤ d' → fieldValueLen fuel num typ b d = some (.ok n) →
+        fieldValueLen fuel num typ b d' = some (.ok n)) ∧
+    (∀ num b (d d' : Int) acc n, d ≤ d' → groupLen fuel num b d acc = some (.ok n) →
+        groupLen fuel num b d' acc = some (.ok n))
+  | 0 => by constructor <;> intros <;> simp_all [fieldValueLen, groupLen]
+  | fuel + 1 => by
+    have ih := fieldValueLen_depth_mono fuel
+    constructor
+    · intro num typ b d d' n hd h
+      unfold fieldValueLen at h ⊢
+      split at h <;> try exact h
+      · rename_i heq; 
+        split at h
+        · simp at h
+        · have : ¬ d' < 0 := by omega
+          simp only [this, if_false]
+          exact ih.2 _ _ _ _ _ _ hd h
+    · intro num b d d' acc n hd h
+      unfold groupLen at h ⊢
+      split at h
+      · exact h
+      · rename_i num2 typ2 n2 heq
+        simp only at h ⊢
+        by_cases h4 : typ2 = 4
+        · simp only [h4, if_true] at h ⊢; exact h
+        · simp only [h4, if_false] at h ⊢
+          split at h
+          · simp at h
+          · simp at h
+          · rename_i m hm
+            rw [ih.1 _ _ _ (d - 1) (d' - 1) _ (by omega) hm]
+            exact ih.2 _ _ _ _ _ _ hd h
+
+theorem consumeFieldValue_depth_mono {num typ : Nat} {b : List Byte} {d d' : Int} {n : Nat}
+    (hd : d ≤ d') (h : consumeFieldValue num typ b d = .ok n) : consumeFieldValue num typ b d' = .ok n := by
+  unfold consumeFieldValue at h ⊢
+  split at h
+  · rename_i r hr
+    subst h
+    rw [(fieldValueLen_depth_mono _).1 _ _ _ _ _ _ hd hr]
+  · simp at h
+
+end Spec
